@@ -267,7 +267,7 @@ func (e *pvEnv) observe(addr string, status int, body []byte, pm string) string 
 	case status == 500:
 		o = "500"
 	case status == 200:
-		items, ok := refTlvParse(body)
+		items, ok := refTlvParseStrict(body)
 		if !ok {
 			o = "unparseable-body"
 			break
